@@ -90,6 +90,10 @@ def write_instance(name, inst, fixes, check, workdir, emit):
     th = set(c["threads"])
     prog = c["prog"]
     if prog:
+        # a fixed program is its own bound
+        for k in ["MaxOps", "MaxSpans", "MaxRoots", "MaxTraces", "MaxScopes", "MaxLocal", "MaxAtt", "MaxLs"]:
+            c[k] = max(c[k], 9)
+    if prog:
         progtxt = "[t \\in MCThreads |-> CASE " + " [] ".join(
             "t = %d -> %s" % (t, tla_val(prog.get(t, []))) for t in sorted(th)) + "]"
     else:
@@ -286,6 +290,8 @@ def harness_opts(c):
         o.append("--cancelable")
     if not c.get("ready", True):
         o.append("--not-ready")
+    if c.get("op_sleep_us"):
+        o += ["--op-sleep-us", str(c["op_sleep_us"])]
     o += ["--ring", str(c.get("K", 8)), "--queue", str(c.get("QCap", 10)), "--stack", str(c.get("SCap", 10))]
     return o
 
